@@ -51,7 +51,18 @@ def main():
         assert pyoma2.__file__.startswith(SRC), pyoma2.__file__
         if not a.no_proof:
             ctx.proof_step()
-        mod.run(ctx)
+        cov = None
+        if os.environ.get("VERIF_COVERAGE") == "1":  # development aid: which lines of the anchored files does this check execute?
+            import coverage
+
+            cov = coverage.Coverage(data_file=None, source=[os.path.join(SRC, "pyoma2")], branch=False)
+            cov.start()
+        try:
+            mod.run(ctx)
+        finally:
+            if cov is not None:
+                cov.stop()
+                common.coverage_report(ctx, cov, SRC)
     except common.CoqError as e:
         ctx.fail("correspondence", "model evaluation failed: %s" % str(e)[-1500:], key="coqerror")
     except Exception:
